@@ -16,12 +16,55 @@ const Layer = "m"
 // the parts of package sync that need no cooperation with the scheduler are the real ones (an EDIT of garr may use any of them and
 // must still build)
 
-// WaitGroup is the real one between chaos points (see vsched.Chaos)
-type WaitGroup struct{ real sync.WaitGroup }
+// StepLevel (set by the poolstep harness only) makes the pool's remaining synchronisation objects cooperative as well:
+//   - WaitGroup is a plain counter: Add/Done are scheduling points logging `ev <tid> m wgadd <addr> <delta> 0 <counter after> 0 0 0`
+//     (32-bit two's complement, hex); Wait is ONE scheduling point that is granted only while the counter is zero, logging `wgwait`;
+//   - RWMutex prefers writers like sync.RWMutex: Lock first announces itself (`lockpend`; from then on RLock blocks and TryRLock
+//     fails), then acquires when the readers have drained (`lock`).
+//
+// Without StepLevel nothing changes for the other harnesses.
+var StepLevel bool
 
-func (w *WaitGroup) Add(n int) { vsched.Chaos(); w.real.Add(n); vsched.Chaos() }
-func (w *WaitGroup) Done()     { vsched.Chaos(); w.real.Done() }
-func (w *WaitGroup) Wait()     { vsched.Chaos(); w.real.Wait(); vsched.Chaos() }
+// WaitGroup is the real one between chaos points (see vsched.Chaos) unless StepLevel
+type WaitGroup struct {
+	real sync.WaitGroup
+	n    int
+}
+
+func (w *WaitGroup) coop() bool { return StepLevel && vsched.LayerOn(Layer) }
+
+func (w *WaitGroup) Add(n int) {
+	if !w.coop() {
+		vsched.Chaos()
+		w.real.Add(n)
+		vsched.Chaos()
+		return
+	}
+	vsched.Point()
+	w.n += n
+	vsched.Logf("ev %d %s wgadd %x %x 0 %x 0 0 0\n", vsched.Tid(), Layer, uintptr(unsafe.Pointer(w)), uint32(int32(n)), uint32(int32(w.n)))
+	if w.n < 0 {
+		vsched.Crash("sync: negative WaitGroup counter")
+	}
+}
+func (w *WaitGroup) Done() {
+	if !w.coop() {
+		vsched.Chaos()
+		w.real.Done()
+		return
+	}
+	w.Add(-1)
+}
+func (w *WaitGroup) Wait() {
+	if !w.coop() {
+		vsched.Chaos()
+		w.real.Wait()
+		vsched.Chaos()
+		return
+	}
+	vsched.BlockOn(func() bool { return w.n == 0 })
+	vsched.Logf("ev %d %s wgwait %x 0 0 0 0 0 0\n", vsched.Tid(), Layer, uintptr(unsafe.Pointer(w)))
+}
 func (w *WaitGroup) Go(f func()) {
 	w.Add(1)
 	go func() { defer w.Done(); f() }()
@@ -44,9 +87,10 @@ func (m *Mutex) Unlock()       { m.rw.Unlock() }
 func (m *Mutex) TryLock() bool { return m.rw.TryLock() }
 
 type RWMutex struct {
-	real    sync.RWMutex
-	writer  bool
-	readers int
+	real     sync.RWMutex
+	writer   bool
+	readers  int
+	wpending bool // StepLevel: a writer has announced itself
 }
 
 func lg(kind string, m *RWMutex) {
@@ -60,12 +104,22 @@ func (m *RWMutex) Lock() {
 		vsched.Chaos()
 		return
 	}
+	if StepLevel {
+		vsched.BlockOn(func() bool { return !m.writer && !m.wpending })
+		m.wpending = true
+		lg("lockpend", m)
+		vsched.BlockOn(func() bool { return m.readers == 0 })
+		m.wpending = false
+		m.writer = true
+		lg("lock", m)
+		return
+	}
 	if m.writer || m.readers > 0 {
 		vsched.Block(m)
 	} else {
 		vsched.Point()
 	}
-	for m.writer || m.readers > 0 {
+	for (m.writer || m.readers > 0) && !vsched.Dying() {
 		vsched.Block(m)
 	}
 	m.writer = true
@@ -96,12 +150,18 @@ func (m *RWMutex) RLock() {
 		vsched.Chaos()
 		return
 	}
+	if StepLevel {
+		vsched.BlockOn(func() bool { return !m.writer && !m.wpending })
+		m.readers++
+		lg("rlock", m)
+		return
+	}
 	if m.writer {
 		vsched.Block(m)
 	} else {
 		vsched.Point()
 	}
-	for m.writer {
+	for m.writer && !vsched.Dying() {
 		vsched.Block(m)
 	}
 	m.readers++
@@ -135,7 +195,7 @@ func (m *RWMutex) TryLock() bool {
 		return m.real.TryLock()
 	}
 	vsched.Point()
-	if m.writer || m.readers > 0 {
+	if m.writer || m.readers > 0 || m.wpending {
 		lg("trylock-fail", m)
 		return false
 	}
@@ -151,7 +211,7 @@ func (m *RWMutex) TryRLock() bool {
 		return m.real.TryRLock()
 	}
 	vsched.Point()
-	if m.writer {
+	if m.writer || m.wpending {
 		lg("tryrlock-fail", m)
 		return false
 	}
